@@ -126,6 +126,7 @@ def check(ctx):
     # add_impl: count before the coroutine can finish? cnt.fetch_add after spawn
     AI = CQ + "::add_impl"
     ctx.must_call(AI, atomic("fetch_add", CQ + ".cnt"), "add/counts-selector", "every added selector is counted")
+    shared.cqueue_selector_slot_rules(ctx)
     # EventSender::send checks cancel before yielding
     SD = ESD + "::send"
     ctx.order(SD, Call(r"may::cancel::CancelImpl::check_cancel", transitive=False), Call(r"may::yield_now::yield_with", transitive=False), "send/cancel-check-before-yield",
@@ -180,3 +181,21 @@ def check(ctx):
                 if okk else "two coroutine_local! keys of the same type share a TypeId: they alias each other's storage", None)
         ctx.obs.extend(mctx.obs)
         for k, v in mctx.rule_counts.items(): ctx.rule_counts[k] = ctx.rule_counts.get(k, 0) + v
+    shared.taken_waiter_is_woken(ctx, only=r"cqueue::Cqueue\.to_wake$")
+    # every event popped by poll is dispatched: its bottom half runs (Normal) or its selector is joined (Done) before poll pops again,
+    # parks or returns - an event that is popped and dropped is consumed without its bottom half having run
+    PL = CQ + "::poll"
+    f = ctx.fn("R-PAIR", PL, "poll/popped-event-dispatched")
+    if f is not None:
+        POP = Call(MQ_MPSC + "pop", on=CQ + ".ev_queue", transitive=False)
+        pops = ctx.an.sites(f, POP, "must")
+        disp = ctx.an.sites(f, Call(re.escape(EV) + "::continue_bottom", transitive=False), "must") | ctx.an.sites(f, Call(re.escape(CQ) + "::check_panic", transitive=False), "must")
+        es = ctx.edges(f, variant_of_call(MQ_MPSC + "pop", "Some"))
+        if not pops or not disp or not es:
+            ctx.missing("R-PAIR", PL, "poll/popped-event-dispatched", "pop sites=%d dispatch sites=%d pop-Some edges=%d" % (len(pops), len(disp), len(es)))
+        else:
+            stops = set(f.ret_points()) | pops | ctx.an.sites(f, Call(r"may::sync::blocking::Blocker::park", transitive=False), "must")
+            r = ctx.an.reach(f, [Point(tb, 0) for _, tb, _ in es], blocked=disp)
+            bad = sorted(x for x in stops if x in r)
+            ctx.ob("R-PAIR", PL, "poll/popped-event-dispatched", not bad, "every event popped by poll goes through continue_bottom (Normal) or check_panic (Done) before poll pops again, parks or returns" if not bad else
+                   "poll can pop an event and go on without running its bottom half / joining its selector: the event is consumed (dropped) although its bottom half never ran", f.where(bad[0]) if bad else f.where(sorted(pops)[0]))
